@@ -2057,7 +2057,8 @@ impl<Target> StaticCompressor<Target> {
 
     /// Inserts the position of a new domain name if possible.
     fn insert(&mut self, pos: usize) -> bool {
-        if pos < 0xc000 && self.len < self.entries.len() {
+        // A compression pointer only has 14 bits for the position.
+        if pos < 0x4000 && self.len < self.entries.len() {
             self.entries[self.len] = pos as u16;
             self.len += 1;
             true
@@ -2271,7 +2272,8 @@ impl<Target> TreeCompressor<Target> {
         name: N,
         pos: usize,
     ) -> bool {
-        if pos >= 0xC000 {
+        // A compression pointer only has 14 bits for the position.
+        if pos >= 0x4000 {
             return false;
         }
         let pos = pos as u16;
@@ -2464,7 +2466,8 @@ struct HashEntry {
 impl HashEntry {
     /// Try constructing a [`HashEntry`].
     fn new(head: usize, tail: usize) -> Option<Self> {
-        if head < 0xC000 {
+        // A compression pointer only has 14 bits for the position.
+        if head < 0x4000 {
             Some(Self {
                 head: head as u16,
                 tail: tail as u16,
@@ -2607,7 +2610,7 @@ impl<Target: Composer> Composer for HashCompressor<Target> {
 
             // Remember this label for future compression, if possible.
             //
-            // If some labels in this name pass the 0xC000 boundary point, then
+            // If some labels in this name pass the 0x4000 boundary point, then
             // none of its remembered labels can be used (since they are looked
             // up from right to left, and the rightmost ones will fail first).
             // We could check more thoroughly for this, but it's not worth it.
